@@ -86,6 +86,15 @@ def implies_le(g, small_pred, big_pred):
     return False
 
 
+def _copy_within_sites(f):
+    """(loc, receiver operand, range operand, dest operand) of slice::copy_within calls"""
+    out = []
+    for loc, t in f.calls():
+        if (t.get('callee') or '') == 'core::slice::<impl [T]>::copy_within' and len(t['args']) == 3 and not f.blocks[loc[0]]['cleanup']:
+            out.append((loc, t['args'][0], t['args'][1], t['args'][2]))
+    return out
+
+
 def copy_sites(f):
     """raw memory copies in f, normalised over their spellings: (loc, dst operand, src operand, count operand, overlapping?)"""
     out = []
@@ -132,7 +141,22 @@ def r2_bounded_accesses(r, facts):
     g = facts.fn(RB + '::remove')
     eg = ExprBuilder(g, multi='leaf')
     copies = copy_sites(g)
-    if r.require(len(copies) == 1, 'remove', 'expected one raw copy in remove, found %d' % len(copies), g.where()):
+    within = _copy_within_sites(g)
+    if not copies and len(within) == 1:
+        # the safe spelling: `slice.copy_within(end..len, start)` on the slice of the owned buffer at its current length —
+        # bounds-checked against that slice, overlap handled; what remains to check is that it is that slice and that range
+        loc, recv, rng, dst = within[0]
+        eph = ExprBuilder(g, multi='phi')
+        re_ = eph.operand(recv)
+        base_ok = any(c08.is_prev_owned(x) for x in subexprs(re_)) and not any(x[0] == 'call' and x[1] == c08.CHANGE_SIZE for x in subexprs(re_))
+        r.inst('remove: copy_within on the owned slice: %s' % base_ok, g.where(loc))
+        r.require(base_ok, 'remove/within-slice', 'copy_within is not applied to the slice of the owned buffer at its current length: %s' % (re_,), g.where(loc))
+        rg = eg.operand(rng)
+        ds = strip(eg.operand(dst))
+        nm_ = lambda n, e: strip(e)[0] == 'local' and strip(e)[2] == n
+        ok_rng = rg[0] == 'agg' and rg[1].endswith('Range::Range') and len(rg[3]) == 2 and nm_('end', rg[3][0]) and is_orig_len(rg[3][1])
+        r.require(ok_rng and nm_('start', ds), 'remove/within-range', 'copy_within does not move end..len to start: range %s dest %s' % (rg, ds), g.where(loc))
+    elif r.require(len(copies) == 1, 'remove', 'expected one raw copy in remove, found %d' % len(copies), g.where()):
         loc, a_dst, a_src, a_cnt, overlapping = copies[0]
         r.require(overlapping, 'remove/overlap', 'remove moves bytes within one buffer with a non-overlapping copy', g.where(loc))
         gs = guard_edges(g, loc, eg)
@@ -260,7 +284,7 @@ def r3_validate_first(r, facts):
     g = facts.fn(RB + '::remove')
     eg = ExprBuilder(g, multi='leaf')
     stores = [loc for f, loc, kind, e in c08.owned_writers(facts) if f is g and kind == 'store']
-    copies = [c_[0] for c_ in copy_sites(g)]
+    copies = [c_[0] for c_ in copy_sites(g)] + [c_[0] for c_ in _copy_within_sites(g)]
     panics = [loc for loc, t in g.calls() if (t.get('callee') or '').startswith('core::panicking::') or (t.get('callee') or '').startswith('std::rt::panic') or (t.get('callee') or '') == 'std::rt::begin_panic']
     r.require(len(stores) == 1 and len(copies) == 1, 'remove/sites', 'store/copy sites not found', g.where())
     nm = lambda n: (lambda e: e[0] == 'local' and e[2] == n)
